@@ -7,7 +7,7 @@ query by `./check C11`.  `WF` (Model/IRWF.lean) is the decidable conjunction of 
 clauses; the theorems below are its clauses for every query the modelled frontend accepts, over
 every schema view.  `WF` is additionally evaluated on every real IR by the driver.
 -/
-import TrustfallModel.Proofs.FrontendTags
+import TrustfallModel.Proofs.FrontendIndexed
 
 namespace TF.C11
 open TF TF.Engine TF.Frontend TF.Spec
@@ -69,6 +69,63 @@ theorem toIR_wf {S : SchemaView} {q : Query} {ir : IRQuery} (h : toIR S q = .ok 
     (toIR_edge_numbering h).2⟩, toIR_tags_defined_before_use h⟩, toIR_imports_exact h⟩,
     toIR_variables_recorded h⟩
 
+/-- `IndexedQuery::try_from` (model `indexedOk`, compared with the real one on every real IR)
+accepts every well-formed query whose outputs are in order (`outputsOk`: each output is read at a
+vertex of its own component and no output name occurs twice — conditions `try_from` checks that
+are not among the clauses of C11). -/
+theorem wf_indexed_ok {ir : IRQuery} (hwf : WF ir = true) (ho : outputsOk ir = true) :
+    indexedOk ir = true :=
+  indexed_ok_of_wf hwf ho
+
+/-- The outputs of a compiled query are in order. -/
+theorem toIR_outputs {S : SchemaView} {q : Query} {ir : IRQuery} (h : toIR S q = .ok ir) :
+    outputsOk ir = true :=
+  toIR_outputs_ok h
+
+/-- The `unwrap()` of `IndexedQuery::try_from` in `frontend::parse` is safe: every compiled query
+is accepted. -/
+theorem toIR_indexed_ok {S : SchemaView} {q : Query} {ir : IRQuery} (h : toIR S q = .ok ir) :
+    indexedOk ir = true :=
+  indexed_ok_of_wf (toIR_wf h) (toIR_outputs_ok h)
+
+/-! ### non-vacuity -/
+
+/-- one type `T` with a property `s : String` and an edge `e : [T]`; root `R : [T]` -/
+def exSchema : SchemaView :=
+  ⟨[⟨"T", false, [], [("s", ⟨"String", [true]⟩)], [⟨"e", "T", ⟨"T", [true, true]⟩, []⟩]⟩],
+   [⟨"R", "T", ⟨"T", [true, true]⟩, []⟩]⟩
+
+/-- `{ R { s @tag(name: "a") @output(name: "o")
+          e @fold { s @filter(op: "=", value: ["%a"]) @output(name: "p")
+                    e @fold { s @filter(op: "=", value: ["%a"]) @output(name: "q") } } } }` -/
+def exQuery : Query :=
+  ⟨"R", [], .mk none [
+    .prop "s" [.tag "a", .output "o"],
+    .edge "e" [] (.fold []) (.mk none [
+      .prop "s" [.filter (.bin .equals) (.tag "a"), .output "p"],
+      .edge "e" [] (.fold []) (.mk none [
+        .prop "s" [.filter (.bin .equals) (.tag "a"), .output "q"]])])]⟩
+
+def accepted : M IRQuery → Bool
+  | .ok _ => true
+  | .error _ => false
+
+example : accepted (toIR exSchema exQuery) = true := by decide +kernel
+
+/-- the inner fold does not list the tag it only inherits: imports of the outer fold `[ctx 1 s]`
+(twice: F-10), of the inner fold `[]` -/
+def importsOf : M IRQuery → List (List Nat)
+  | .ok ir =>
+    ir.rootComponent.folds.flatMap fun f =>
+      [f.imports.map definedAt] ++ f.component.folds.map fun g => g.imports.map definedAt
+  | .error _ => []
+
+example : importsOf (toIR exSchema exQuery) = [[1, 1], []] := by decide +kernel
+
+/-- `WF` is not vacuous: an edge `1` leading to vertex `3` is rejected. -/
+example : WF ⟨"R", [], [], .mk 1 [⟨1, "T", none, []⟩, ⟨3, "T", none, []⟩]
+    [⟨1, 1, 3, "e", [], false, none⟩] [] []⟩ = false := by decide +kernel
+
 end TF.C11
 
 #print axioms TF.C11.toIR_edge_numbering
@@ -78,3 +135,6 @@ end TF.C11
 #print axioms TF.C11.toIR_tags_defined_before_use
 #print axioms TF.C11.toIR_imports_exact
 #print axioms TF.C11.toIR_wf
+#print axioms TF.C11.wf_indexed_ok
+#print axioms TF.C11.toIR_outputs
+#print axioms TF.C11.toIR_indexed_ok
